@@ -106,8 +106,11 @@ def worker_main(argv):
             stats[kk] += v
         for kk, v in (res.get("sets") or {}).items():
             sets[kk].update(v)
-        if res.get("nontrivial"):
+        if res.get("nontrivial_digests"):
+            nontrivial.update(res["nontrivial_digests"])
+        elif res.get("nontrivial"):
             nontrivial.add(digest(case))
+        stats["__evaluations"] += int(res.get("evaluations", 1))
         if res.get("violations"):
             for v in res["violations"][:3]:
                 if len(violations) < a.maxviol:
@@ -270,7 +273,8 @@ def main(argv=None):
     if worker_errors:
         inconclusive.append("worker errors: %r" % (worker_errors[:2],))
 
-    cov = dict(evaluations=ncases, distinct_nontrivial=len(nontrivial), rule=mon.rule, samples=samples,
+    evals = stats.pop("__evaluations", 0) or ncases
+    cov = dict(evaluations=evals, cases=ncases, distinct_nontrivial=len(nontrivial), rule=mon.rule, samples=samples,
                events=dict((k, v) for k, v in sorted(stats.items())),
                distinct=dict((k, len(v)) for k, v in sorted(sets.items())),
                workers=workers, watchdog_fired=watchdog, witnesses=witness_note,
@@ -289,8 +293,8 @@ def main(argv=None):
 
     for line in known_lines:
         print(line)
-    print("%s tier=%s seed=%d cases=%d nontrivial=%d violations=%d known=%d wall=%.1fs" % (
-        pid, a.tier, a.seed, ncases, len(nontrivial), len(real), len(violations) - len(real), wall))
+    print("%s tier=%s seed=%d evaluations=%d nontrivial=%d violations=%d known=%d wall=%.1fs" % (
+        pid, a.tier, a.seed, evals, len(nontrivial), len(real), len(violations) - len(real), wall))
     if real:
         shown = set()
         for v in real:
